@@ -107,6 +107,13 @@ func agwpe.(*Port).write(p, f) (err)
 func agwpe.(*TNC).write(t, f) (err)
   props C13
   requires conn: t.conn != nil
+  # a frame goes out in two parts: the parts of two frames must not interleave
+  call sync.(*Mutex).Lock set gWLocked := true
+  call agwpe.(frame).WriteTo requires write-lock-held: gWLocked
+  call sync.(*Mutex).Unlock requires released-after-the-frame: gWLocked
+  call sync.(*Mutex).Unlock set gWLocked := false
+  ensures released: !gWLocked
+ghost var gWLocked bool
 
 # Read: any buffer size; a frame larger than p is delivered over several reads
 func agwpe.(*Conn).Read(c, p) (n, err)
